@@ -28,6 +28,7 @@ import (
 	"errors"
 	"fmt"
 	"os"
+	"reflect"
 	"runtime"
 	"sort"
 	"strconv"
@@ -44,10 +45,45 @@ import (
 )
 
 const (
-	tblMax        = 48                      // occurrences listed per schedule table
-	settleTimeout = 1500 * time.Millisecond // quiescence watchdog
-	callTimeout   = 2 * time.Second         // Schedule / Release must return within this ("promptly")
+	tblMax = 48 // occurrences listed per schedule table
+	// hardDeadline bounds every wait of the harness. No verdict depends on it: quiescence, "the call returned" and
+	// "the call is blocked for good" are all DEFINITE conditions read off the goroutine states (see settle and
+	// guarded); a wait that outlasts the deadline ends the case as a harness error (status `harnesserr`, which the
+	// driver reports as BADOP = check error, never as a violation).
+	hardDeadline = 120 * time.Second
 )
+
+// pause sleeps between two polls of a definite condition (a poll interval, not a time-out): 20µs doubling to 1ms.
+type pause struct{ d time.Duration }
+
+func (p *pause) sleep() {
+	if p.d == 0 {
+		p.d = 20 * time.Microsecond
+		runtime.Gosched() // the first poll only yields: what is waited for is usually a runnable goroutine
+		return
+	}
+	time.Sleep(p.d)
+	if p.d < time.Millisecond {
+		p.d *= 2
+	}
+}
+
+// wait is sleep, cut short by a recorded event.
+func (p *pause) wait(sig <-chan struct{}) {
+	if p.d == 0 {
+		p.sleep()
+		return
+	}
+	tm := time.NewTimer(p.d)
+	select {
+	case <-sig:
+	case <-tm.C:
+	}
+	tm.Stop()
+	if p.d < time.Millisecond {
+		p.d *= 2
+	}
+}
 
 // ---- clock wrapper: counts the scheduler's reads of its clock (used only to detect a spinning main loop) ----
 
@@ -57,6 +93,51 @@ type hclock struct {
 }
 
 func (c *hclock) Now() time.Time { atomic.AddInt64(&c.reads, 1); return c.Mock.Now() }
+
+// timerDue peeks (reflection, read only) into the mock: is a timer armed at or before the mock's current time, i.e.
+// would Add(0) fire anything? Moving the mock clock costs real sleeps inside the mock (its `gosched`), several ms each
+// on a loaded machine, so the harness only kicks when there is something to fire. Called under the scheduler mutex
+// (the scheduler touches its timer only under that mutex, and nobody else uses this mock). Anything unexpected in the
+// mock's or time.Time's layout gives known=false, and the caller kicks unconditionally as before.
+func (c *hclock) timerDue() (due, known bool) {
+	defer func() {
+		if recover() != nil {
+			due, known = false, false
+		}
+	}()
+	v := reflect.ValueOf(c.Mock).Elem().FieldByName("timers")
+	if !v.IsValid() || v.Kind() != reflect.Slice {
+		return false, false
+	}
+	now := c.Mock.Now()
+	nowSec, nowNsec := now.Unix()+62135596800, int64(now.Nanosecond()) // seconds since year 1, as time.Time.ext
+	for i := 0; i < v.Len(); i++ {
+		e := v.Index(i)
+		for e.Kind() == reflect.Interface || e.Kind() == reflect.Ptr {
+			e = e.Elem()
+		}
+		if e.Kind() != reflect.Struct {
+			return false, false
+		}
+		nx := e.FieldByName("next")
+		if !nx.IsValid() || nx.Kind() != reflect.Struct {
+			return false, false
+		}
+		wall, ext := nx.FieldByName("wall"), nx.FieldByName("ext")
+		if !wall.IsValid() || !ext.IsValid() || wall.Kind() != reflect.Uint64 || ext.Kind() != reflect.Int64 {
+			return false, false
+		}
+		w := wall.Uint()
+		if w>>63 != 0 { // a monotonic reading: not a mock time
+			return false, false
+		}
+		sec, nsec := ext.Int(), int64(w&(1<<30-1))
+		if sec < nowSec || (sec == nowSec && nsec <= nowNsec) {
+			return true, true
+		}
+	}
+	return false, true
+}
 
 // ---- schedulable ----
 
@@ -89,6 +170,14 @@ type rec struct {
 	starts   map[scheduler.ID]int // exec starts per id since the case began
 	ckpts    int
 	draining bool
+	sig      chan struct{} // poked (non-blocking) whenever an event is recorded: wakes a waiting settle at once
+}
+
+func (r *rec) poke() {
+	select {
+	case r.sig <- struct{}{}:
+	default:
+	}
 }
 
 func (r *rec) Execute(ctx context.Context, id scheduler.ID, scheduledFor time.Time, runAt time.Time) error {
@@ -99,6 +188,7 @@ func (r *rec) Execute(ctx context.Context, id scheduler.ID, scheduledFor time.Ti
 	}
 	r.events = append(r.events, fmt.Sprintf("s:%d:%d:%d:%d", id, scheduledFor.Unix(), runAt.Unix(), now))
 	r.starts[id]++
+	r.poke()
 	if r.draining {
 		r.mu.Unlock()
 		return nil
@@ -127,6 +217,7 @@ func (r *rec) UpdateLastScheduled(ctx context.Context, id scheduler.ID, t time.T
 	defer r.mu.Unlock()
 	r.events = append(r.events, fmt.Sprintf("c:%d:%d", id, t.Unix()))
 	r.ckpts++
+	r.poke()
 	if r.cpFail[id] {
 		r.cpFail[id] = false
 		return errors.New("checkpoint failed")
@@ -148,6 +239,7 @@ type hcase struct {
 	r        *rec
 	workers  int
 	dead     bool         // the scheduler stopped answering; every further op is reported `dead`
+	herr     bool         // a wait of the harness outlasted hardDeadline: the case is void (harness error)
 	gids     map[int]bool // goroutines of this scheduler instance
 	co       coordState   // the real coordinator in front of the scheduler (coord_real.go), when it can be linked
 	lastTick bool         // the last settled snapshot had a tick stuck behind a spinning loop
@@ -162,7 +254,7 @@ func workerOf(id scheduler.ID, workers int) int {
 
 func newCase(workers int) (*hcase, error) {
 	mc := &hclock{Mock: clock.NewMock()}
-	r := &rec{mc: mc, inflight: map[scheduler.ID]*execRec{}, cpFail: map[scheduler.ID]bool{}, starts: map[scheduler.ID]int{}}
+	r := &rec{mc: mc, inflight: map[scheduler.ID]*execRec{}, cpFail: map[scheduler.ID]bool{}, starts: map[scheduler.ID]int{}, sig: make(chan struct{}, 1)}
 	before := goroutineBlocks()
 	s, _, err := scheduler.NewScheduler(r, r, scheduler.WithTime(mc), scheduler.WithMaxConcurrentWorkers(workers), scheduler.WithOnErrorFn(r.onErr))
 	if err != nil {
@@ -258,8 +350,9 @@ func (h *hcase) gstates() (g gstate) {
 		switch {
 		case strings.Contains(b, "scheduler.NewScheduler.func"):
 			g.loopFound = true
-			// the only blocking select of the loop is the outer one (the iterator's select has a default)
-			g.loopParked = st == "select"
+			// parked = blocked in the OUTER select (not inside process() / iterator(), whose select has a default
+			// in the code as it is, but must not be mistaken for the outer one when a change makes it block)
+			g.loopParked = st == "select" && !strings.Contains(b, ".process(") && !strings.Contains(b, ".iterator.")
 		case strings.Contains(b, ".(*TreeScheduler).work"):
 			g.workers++
 			if st == "chan receive" {
@@ -270,105 +363,185 @@ func (h *hcase) gstates() (g gstate) {
 	return g
 }
 
-func sameSnap(a, b scheduler.VerifSnapshot) bool {
-	if len(a.Queue) != len(b.Queue) || len(a.Index) != len(b.Index) || !a.When.Equal(b.When) || a.TickPending != b.TickPending {
+// ---- calls into the scheduler: returned, or blocked for good (a definite condition), or harness error ----
+
+// blockedState: goroutine wait reasons that only another goroutine (or the harness) can end. `sleep`, `runnable`,
+// `running`, `syscall`, GC states etc. are NOT in the list: such a goroutine will move by itself.
+var blockedState = map[string]bool{
+	"chan receive": true, "chan send": true, "select": true, "select (no cases)": true,
+	"chan receive (nil chan)": true, "chan send (nil chan)": true,
+	"sync.Mutex.Lock": true, "sync.RWMutex.Lock": true, "sync.RWMutex.RLock": true, "semacquire": true,
+	"sync.Cond.Wait": true, "sync.WaitGroup.Wait": true,
+}
+
+func curGID() int {
+	buf := make([]byte, 64)
+	n := runtime.Stack(buf, false)
+	f := strings.Fields(string(buf[:n]))
+	if len(f) >= 2 {
+		id, _ := strconv.Atoi(f[1])
+		return id
+	}
+	return -1
+}
+
+// allBlocked: in one stop-the-world sample the calling goroutine `gid`, the main loop and every worker of this
+// scheduler instance are blocked. Nothing but these goroutines and the (waiting) harness can act on the scheduler
+// (mock timers fire only when the harness moves the clock), so this state lasts for ever: the call never returns.
+func (h *hcase) allBlocked(gid int) bool {
+	blocks := goroutineBlocks()
+	b, ok := blocks[gid]
+	if !ok || !blockedState[headerState(b)] {
 		return false
 	}
-	for i := range a.Queue {
-		if a.Queue[i] != b.Queue[i] {
-			return false
-		}
-	}
-	for k, v := range a.Index {
-		if w, ok := b.Index[k]; !ok || w != v {
+	for id := range h.gids {
+		if b, ok := blocks[id]; ok && !blockedState[headerState(b)] {
 			return false
 		}
 	}
 	return true
 }
 
-// state takes the lock-consistent snapshot under a watchdog: if the scheduler mutex is held forever (a main loop
-// blocked inside process()), Schedule and Release would block as well - the case is reported as `blocked`.
+type callOutcome int
+
+const (
+	callReturned   callOutcome = iota
+	callBlocked                // deadlock: caller, main loop and all workers blocked (the property's "returns promptly" fails)
+	callHarnessErr             // neither returned nor provably blocked within hardDeadline
+)
+
+// guarded runs f on its own goroutine and waits until it RETURNED or is BLOCKED FOR GOOD. There is no time-out that
+// decides anything: a slow machine only makes the wait longer.
+func (h *hcase) guarded(f func() error) (error, callOutcome) {
+	ch := make(chan error, 1)
+	gidc := make(chan int, 1)
+	go func() { gidc <- curGID(); ch <- f() }()
+	gid := <-gidc
+	start := time.Now()
+	stable := 0
+	lastReads := int64(-1)
+	// woken by the return of f itself; the timer only paces the samples of the goroutine states
+	tm := time.NewTimer(3 * time.Millisecond)
+	defer tm.Stop()
+	for {
+		select {
+		case e := <-ch:
+			return e, callReturned
+		case <-tm.C:
+			tm.Reset(3 * time.Millisecond)
+		}
+		reads := atomic.LoadInt64(&h.mc.reads)
+		if h.allBlocked(gid) && (stable == 0 || reads == lastReads) {
+			stable++
+		} else {
+			stable = 0
+		}
+		lastReads = reads
+		if stable >= 3 {
+			select {
+			case e := <-ch:
+				return e, callReturned
+			default:
+			}
+			h.dead = true
+			return nil, callBlocked
+		}
+		if time.Since(start) > hardDeadline {
+			h.dead, h.herr = true, true
+			return nil, callHarnessErr
+		}
+	}
+}
+
+// state takes the lock-consistent snapshot: if the scheduler mutex is held forever (a main loop blocked inside
+// process()), Schedule and Release would block as well - the case is reported as `blocked`.
 func (h *hcase) state() (scheduler.VerifSnapshot, bool) {
 	if h.dead {
 		return scheduler.VerifSnapshot{}, false
 	}
-	ch := make(chan scheduler.VerifSnapshot, 1)
-	go func() { ch <- h.s.VerifState() }()
-	select {
-	case s := <-ch:
-		return s, true
-	case <-time.After(callTimeout):
-		h.dead = true
+	var snap scheduler.VerifSnapshot
+	_, oc := h.guarded(func() error { snap = h.s.VerifState(); return nil })
+	if oc != callReturned {
 		return scheduler.VerifSnapshot{}, false
 	}
+	return snap, true
 }
 
-// settle drives the system to quiescence and returns the snapshot, or ok=false on timeout.
-// Each round "kicks" the mock clock (Add(0) under the scheduler mutex) unless a tick is already pending:
-// a mock timer armed at or before `now` only fires when the clock is moved, a real timer fires by itself.
-// Quiescent means: every worker goroutine is parked (idle in its channel receive or inside a gated Execute),
-// and the main loop is EITHER parked at its select with no tick pending, OR spinning in its inner loop without
-// effect (two identical lock-consistent snapshots with at least two complete passes in between, counted by the
-// loop's reads of the clock).
+// settle drives the system to quiescence and returns the snapshot, or ok=false when the scheduler is blocked for
+// good / the hard deadline passed (h.dead, h.herr).
+// Each round "kicks" the mock clock (Add(0) under the scheduler mutex) unless a tick is already pending (hook
+// VerifKick: test and move under ONE lock acquisition): a mock timer armed at or before `now` only fires when the
+// clock is moved, a real timer fires by itself.
+// Quiescent is a DEFINITE condition, read off stop-the-world samples of the goroutine states (runtime.Stack):
+// the checkpoints the op must cause have been written, every worker goroutine is blocked in a channel receive (idle at
+// its work channel, or inside a gated Execute: its start event is then recorded), and the main loop is EITHER
+//
+//	(A) blocked at its outer select in the same sample, no tick was or is pending: every goroutine that can act on the
+//	    scheduler is blocked, ticks come only from the harness moving the clock - nothing moves until the next op; OR
+//	(B) spinning in its inner loop without effect: all workers blocked in a first sample, then at least two COMPLETE
+//	    passes of the loop (counted by the loop's reads of the clock, three per pass), then all workers blocked and the
+//	    loop still not parked in a second sample. Without a `done` op the set of idle workers can only shrink, so the
+//	    first complete pass after the first sample dispatched everything that can be dispatched (and the dispatched
+//	    runs have reached their gate: the workers are blocked again).
+//
+// Events are attributed to ops by causality: the events of an op are those recorded before its quiescence is
+// established; between that moment and the next op nothing can happen. No elapsed time decides anything; the sleeps
+// are poll intervals.
 func (h *hcase) settle(wantCkpts int) (snap scheduler.VerifSnapshot, ok bool) {
-	deadline := time.Now().Add(settleTimeout)
+	start := time.Now()
+	var p pause
 	for {
-		if time.Now().After(deadline) {
-			st, _ := h.state()
-			return st, false
+		if h.dead {
+			return scheduler.VerifSnapshot{}, false
 		}
-		pre, alive := h.state()
-		if !alive {
-			return pre, false
+		if time.Since(start) > hardDeadline {
+			h.dead, h.herr = true, true
+			return scheduler.VerifSnapshot{}, false
 		}
-		if !pre.TickPending {
-			done := make(chan struct{})
-			go func() {
-				h.s.VerifWithLock(func() { h.mc.Mock.Add(0) })
-				close(done)
-			}()
-			select {
-			case <-done:
-			case <-time.After(callTimeout):
-				h.dead = true
-				return pre, false
-			}
+		tickBefore := false
+		if _, oc := h.guarded(func() error {
+			tickBefore = h.s.VerifKick(func() {
+				if due, known := h.mc.timerDue(); due || !known {
+					h.mc.Mock.Add(0)
+				}
+			})
+			return nil
+		}); oc != callReturned {
+			return scheduler.VerifSnapshot{}, false
 		}
 		h.r.mu.Lock()
 		ck := h.r.ckpts
 		h.r.mu.Unlock()
 		if ck < wantCkpts {
-			time.Sleep(50 * time.Microsecond)
+			p.wait(h.r.sig)
 			continue
 		}
 		g1 := h.gstates()
 		r0 := atomic.LoadInt64(&h.mc.reads)
-		a, alive := h.state()
-		if !alive {
-			return a, false
-		}
-		if g1.workersParked != g1.workers || !g1.loopFound {
-			time.Sleep(50 * time.Microsecond)
+		if !g1.loopFound || g1.workers != h.workers || g1.workersParked != g1.workers {
+			p.sleep()
 			continue
 		}
 		if g1.loopParked {
-			g2 := h.gstates()
 			b, alive := h.state()
 			if !alive {
 				return b, false
 			}
-			if g2.loopParked && g2.workersParked == g2.workers && !a.TickPending && !b.TickPending && sameSnap(a, b) &&
-				atomic.LoadInt64(&h.mc.reads) == r0 && !pre.TickPending {
+			if !tickBefore && !b.TickPending && atomic.LoadInt64(&h.mc.reads) == r0 {
 				return b, true
 			}
-			time.Sleep(50 * time.Microsecond)
+			p.sleep()
 			continue
 		}
-		// the loop is running: wait for two complete passes (each complete pass reads the clock three times)
-		waitUntil := time.Now().Add(20 * time.Millisecond)
-		for atomic.LoadInt64(&h.mc.reads) < r0+8 && time.Now().Before(waitUntil) {
-			time.Sleep(20 * time.Microsecond)
+		// the loop is running: wait for two complete passes, or until it has parked (the next round judges that)
+		var q pause
+		for n := 1; atomic.LoadInt64(&h.mc.reads) < r0+8 && time.Since(start) <= hardDeadline; n++ {
+			q.sleep()
+			if n%8 == 0 {
+				if g := h.gstates(); g.loopParked {
+					break
+				}
+			}
 		}
 		if atomic.LoadInt64(&h.mc.reads) < r0+8 {
 			continue
@@ -378,12 +551,8 @@ func (h *hcase) settle(wantCkpts int) (snap scheduler.VerifSnapshot, ok bool) {
 		if !alive {
 			return b, false
 		}
-		if !g2.loopParked && g2.workersParked == g2.workers && sameSnap(a, b) && (pre.TickPending == b.TickPending) {
-			// spinning without effect; a pending tick stays pending
-			if !b.TickPending {
-				// the kick of this round did not fire anything (or its tick was consumed): fixpoint
-				return b, true
-			}
+		if g2.loopFound && !g2.loopParked && g2.workers == h.workers && g2.workersParked == g2.workers && tickBefore == b.TickPending {
+			// spinning without effect; a pending tick stays pending behind the spinning loop
 			return b, true
 		}
 	}
@@ -405,12 +574,12 @@ func (h *hcase) takeEvents() []string {
 }
 
 func (h *hcase) observe(status string, wantCkpts int) string {
-	snap, ok := h.settle(wantCkpts)
-	if !ok {
-		status = "unsettled"
-	}
+	snap, _ := h.settle(wantCkpts)
 	if h.dead {
 		status = "blocked"
+	}
+	if h.herr {
+		status = "harnesserr"
 	}
 	var q, ix []string
 	for _, it := range snap.Queue {
@@ -436,16 +605,12 @@ func (h *hcase) observe(status string, wantCkpts int) string {
 	return fmt.Sprintf("%s q=%s ix=%s w=%s tick=%s ev=%s", status, list(q), list(ix), w, tick, list(h.takeEvents()))
 }
 
-// call runs f with a watchdog: the property demands that Schedule / Release return promptly.
-func call(f func() error) (err error, returned bool) {
-	ch := make(chan error, 1)
-	go func() { ch <- f() }()
-	select {
-	case e := <-ch:
-		return e, true
-	case <-time.After(callTimeout):
-		return nil, false
+// stuck is the status of an op whose call did not return: `blocked` (provably for good) or `harnesserr`.
+func (h *hcase) stuck() string {
+	if h.herr {
+		return "harnesserr"
 	}
+	return "blocked"
 }
 
 // doOp executes one op line and returns the line (oracle tokens refreshed) with its observation.
@@ -496,12 +661,11 @@ func (h *hcase) doOp(t []string) (string, bool) {
 		occ, ended := table(sc, last)
 		line := fmt.Sprintf("sched %d %s %d %d cron=%s frac=%d wk=%d tbl=%s", id, t[2], off, last, cronTok, frac, workerOf(id, h.workers), renderTable(occ, ended))
 		var serr error
-		e, returned := call(func() error {
+		e, oc := h.guarded(func() error {
 			return h.s.Schedule(schedulable{id: id, s: sc, off: time.Duration(totalMs) * time.Millisecond, last: time.Unix(last, 0).UTC()})
 		})
-		if !returned {
-			h.dead = true
-			return line + " => blocked", true
+		if oc != callReturned {
+			return line + " => " + h.stuck(), true
 		}
 		serr = e
 		status := "ok"
@@ -512,10 +676,9 @@ func (h *hcase) doOp(t []string) (string, bool) {
 	case "rel":
 		id := scheduler.ID(atoi(t[1]))
 		line := fmt.Sprintf("rel %d", id)
-		e, returned := call(func() error { return h.s.Release(id) })
-		if !returned {
-			h.dead = true
-			return line + " => blocked", true
+		e, oc := h.guarded(func() error { return h.s.Release(id) })
+		if oc != callReturned {
+			return line + " => " + h.stuck(), true
 		}
 		status := "ok"
 		if e != nil {
@@ -533,16 +696,11 @@ func (h *hcase) doOp(t []string) (string, bool) {
 		if h.lastTick {
 			return line + " => " + h.observe("refused", 0), true
 		}
-		done := make(chan struct{})
-		go func() {
+		if _, oc := h.guarded(func() error {
 			h.s.VerifWithLock(func() { h.mc.Mock.Add(time.Duration(d) * time.Second) })
-			close(done)
-		}()
-		select {
-		case <-done:
-		case <-time.After(callTimeout):
-			h.dead = true
-			return line + " => blocked", true
+			return nil
+		}); oc != callReturned {
+			return line + " => " + h.stuck(), true
 		}
 		return line + " => " + h.observe("ok", 0), true
 	case "done":
@@ -588,10 +746,17 @@ func (h *hcase) finish() {
 		return
 	}
 	for id := range snap.Index {
-		call(func() error { return h.s.Release(id) })
+		if _, oc := h.guarded(func() error { return h.s.Release(id) }); oc != callReturned {
+			h.finish()
+			return
+		}
 	}
 	for _, it := range snap.Queue {
-		call(func() error { return h.s.Release(it.ID) })
+		id := it.ID
+		if _, oc := h.guarded(func() error { return h.s.Release(id) }); oc != callReturned {
+			h.finish()
+			return
+		}
 	}
 	h.r.mu.Lock()
 	h.r.draining = true
@@ -602,7 +767,8 @@ func (h *hcase) finish() {
 		}
 	}
 	h.r.mu.Unlock()
-	call(func() error { h.s.Stop(); return nil })
+	// Stop waits for the main loop and the workers to leave; when it is blocked for good the instance is abandoned
+	h.guarded(func() error { h.s.Stop(); return nil })
 }
 
 // execCase runs the op lines of one case on a fresh TreeScheduler.
